@@ -1578,6 +1578,134 @@ def stratify_with (self : Model α) (strat : Strat α) : Res (Model α) := do
 """
 
 
+GLUE_REQUESTS = {
+    "request_output_for_flow": (["self", "name", "flow_name", "source_strata", "dest_strata", "save_results", "raw_results"], [
+        "self._assert_not_finalized()",
+        "source_strata = source_strata or {}",
+        "dest_strata = dest_strata or {}",
+        "if self._should_validate:\n    msg = f'A derived output named {name} already exists.'\n    assert name not in self._derived_output_requests, msg\n"
+        "    is_flow_exists = any([f.is_match(flow_name, source_strata, dest_strata) for f in self.flows])\n"
+        "    assert is_flow_exists, f'No flow matches: {flow_name} {source_strata} {dest_strata}'",
+        "self._derived_output_graph.add_node(name)",
+        "self._derived_output_requests[name] = request = {'request_type': DerivedOutputRequest.FLOW, 'flow_name': flow_name, 'source_strata': source_strata, "
+        "'dest_strata': dest_strata, 'raw_results': raw_results, 'save_results': save_results}",
+        "return DerivedOutput(name, request)"]),
+    "request_output_for_compartments": (["self", "name", "compartments", "strata", "save_results"], [
+        "self._assert_not_finalized()",
+        "strata = strata or {}",
+        "if isinstance(compartments, str):\n    compartments = [compartments]",
+        "if self._should_validate:\n    msg = f'A derived output named {name} already exists.'\n    assert name not in self._derived_output_requests, msg\n"
+        "    is_match_exists = any([any([c.is_match(name, strata) for name in compartments]) for c in self.compartments])\n"
+        "    assert is_match_exists, f'No compartment matches: {compartments} {strata}'",
+        "self._derived_output_graph.add_node(name)",
+        "self._derived_output_requests[name] = request = {'request_type': DerivedOutputRequest.COMPARTMENT, 'compartments': compartments, 'strata': strata, "
+        "'save_results': save_results}",
+        "return DerivedOutput(name, request)"]),
+    "request_aggregate_output": (["self", "name", "sources", "save_results"], [
+        "self._assert_not_finalized()",
+        "msg = f'A derived output named {name} already exists.'",
+        "assert name not in self._derived_output_requests, msg",
+        "sources = [_resolve_source(s) for s in sources]",
+        "for source in sources:\n    assert source in self._derived_output_requests, f'Source {source} has not been requested.'\n"
+        "    self._derived_output_graph.add_edge(source, name)",
+        "self._derived_output_graph.add_node(name)",
+        "self._derived_output_requests[name] = request = {'request_type': DerivedOutputRequest.AGGREGATE, 'sources': sources, 'save_results': save_results}",
+        "return DerivedOutput(name, request)"]),
+    "request_cumulative_output": (["self", "name", "source", "start_time", "save_results"], [
+        "self._assert_not_finalized()",
+        "msg = f'A derived output named {name} already exists.'",
+        "assert name not in self._derived_output_requests, msg",
+        "source = _resolve_source(source)",
+        "assert source in self._derived_output_requests, f'Source {source} has not been requested.'",
+        "self._derived_output_graph.add_node(name)",
+        "self._derived_output_graph.add_edge(source, name)",
+        "self._derived_output_requests[name] = request = {'request_type': DerivedOutputRequest.CUMULATIVE, 'source': source, 'start_time': start_time, "
+        "'save_results': save_results}",
+        "return DerivedOutput(name, request)"]),
+    "request_function_output": (["self", "name", "func", "save_results"], [
+        "self._assert_not_finalized()",
+        "msg = f'A derived output named {name} already exists.'",
+        "assert name not in self._derived_output_requests, msg",
+        "sources = sorted((v.key for v in ComputeGraph(func).get_input_variables() if v.source == 'derived_outputs'))",
+        "for source in sources:\n    assert source in self._derived_output_requests, f'Source {source} has not been requested.'",
+        "for source in sources:\n    self._derived_output_graph.add_edge(source, name)",
+        "self._derived_output_graph.add_node(name)",
+        "self._derived_output_requests[name] = request = {'request_type': DerivedOutputRequest.PARAM_FUNCTION, 'func': func, 'save_results': save_results}",
+        "return DerivedOutput(name, request)"]),
+    "request_computed_value_output": (["self", "name", "save_results"], [
+        "self._assert_not_finalized()",
+        "msg = f'A derived output named {name} already exists.'",
+        "assert name not in self._derived_output_requests, msg",
+        "self._derived_output_graph.add_node(name)",
+        "self._derived_output_requests[name] = request = {'request_type': DerivedOutputRequest.COMPUTED_VALUE, 'name': name, 'save_results': save_results}",
+        "return DerivedOutput(name, request)"]),
+    "add_computed_value_func": (["self", "name", "func"], [
+        "if name in self._computed_values_graph_dict:\n    raise Exception(f'Computed value function with name {name} already exists')",
+        "self._computed_values_graph_dict[name] = func"]),
+    "set_derived_outputs_whitelist": (["self", "whitelist"], [
+        "self._derived_outputs_whitelist = whitelist"]),
+}
+
+GLUE_REQUESTS_LEAN = """
+/-! ### derived-output requests (validation enabled, the default).  `self._derived_output_requests` is the ordered list `requests` (a dict in
+insertion order), the dependency graph is a function of the requests and carries no state of its own in the model. -/
+
+/-- `model.py::CompartmentalModel.request_output_for_flow` -/
+def request_output_for_flow (self : Model α) (name flow_name : String) (source_strata dest_strata : Option Strata) (save_results raw_results : Bool) : Res (Model α) := do
+  _assert_not_finalized self
+  let source_strata := source_strata.getD []
+  let dest_strata := dest_strata.getD []
+  guardE (!self.requests.any (fun r => r.name == name)) "A derived output with this name already exists."
+  let is_flow_exists := self.flows.any (fun f => flowIsMatch f flow_name source_strata dest_strata)
+  guardE is_flow_exists "No flow matches"
+  pure { self with requests := self.requests ++ [{ name := name, req := .flow flow_name source_strata dest_strata raw_results, save := save_results }] }
+
+/-- `model.py::CompartmentalModel.request_output_for_compartments` (a single name is wrapped into a list by the caller) -/
+def request_output_for_compartments (self : Model α) (name : String) (compartments : List String) (strata : Option Strata) (save_results : Bool) : Res (Model α) := do
+  _assert_not_finalized self
+  let strata := strata.getD []
+  guardE (!self.requests.any (fun r => r.name == name)) "A derived output with this name already exists."
+  let is_match_exists := self.comps.any (fun c => compartments.any (fun name => c.isMatch name strata))
+  guardE is_match_exists "No compartment matches"
+  pure { self with requests := self.requests ++ [{ name := name, req := .comp compartments strata, save := save_results }] }
+
+/-- `model.py::CompartmentalModel.request_aggregate_output` -/
+def request_aggregate_output (self : Model α) (name : String) (sources : List String) (save_results : Bool) : Res (Model α) := do
+  _assert_not_finalized self
+  guardE (!self.requests.any (fun r => r.name == name)) "A derived output with this name already exists."
+  sources.forM (fun source => guardE (self.requests.any (fun r => r.name == source)) "Source has not been requested.")
+  pure { self with requests := self.requests ++ [{ name := name, req := .agg sources, save := save_results }] }
+
+/-- `model.py::CompartmentalModel.request_cumulative_output` -/
+def request_cumulative_output (self : Model α) (name source : String) (start_time : Option α) (save_results : Bool) : Res (Model α) := do
+  _assert_not_finalized self
+  guardE (!self.requests.any (fun r => r.name == name)) "A derived output with this name already exists."
+  guardE (self.requests.any (fun r => r.name == source)) "Source has not been requested."
+  pure { self with requests := self.requests ++ [{ name := name, req := .cum source start_time, save := save_results }] }
+
+/-- `model.py::CompartmentalModel.request_function_output`; `sources` are the derived-output variables of `func` (every one of them, wherever it
+occurs in the function: the graph's input variables with source `derived_outputs`) -/
+def request_function_output (self : Model α) (name : String) (func : Expr α) (sources : List String) (save_results : Bool) : Res (Model α) := do
+  _assert_not_finalized self
+  guardE (!self.requests.any (fun r => r.name == name)) "A derived output with this name already exists."
+  sources.forM (fun source => guardE (self.requests.any (fun r => r.name == source)) "Source has not been requested.")
+  pure { self with requests := self.requests ++ [{ name := name, req := .func func sources, save := save_results }] }
+
+/-- `model.py::CompartmentalModel.request_computed_value_output` -/
+def request_computed_value_output (self : Model α) (name : String) (save_results : Bool) : Res (Model α) := do
+  _assert_not_finalized self
+  guardE (!self.requests.any (fun r => r.name == name)) "A derived output with this name already exists."
+  pure { self with requests := self.requests ++ [{ name := name, req := .cv name, save := save_results }] }
+
+/-- `model.py::CompartmentalModel.add_computed_value_func` -/
+def add_computed_value_func (self : Model α) (name : String) (func : Expr α) : Res (Model α) :=
+  if self.computed.any (fun kv => kv.1 == name) then fail "Computed value function with this name already exists"
+  else pure { self with computed := self.computed ++ [(name, func)] }
+
+/-- `model.py::CompartmentalModel.set_derived_outputs_whitelist` -/
+def set_derived_outputs_whitelist (self : Model α) (whitelist : List String) : Model α := { self with whitelist := whitelist }
+"""
+
 def gen_glue_public(tree, methods, out):
     """the public flow-adding methods, `_strata_exist` and `stratify_with` of `CompartmentalModel` and the module function `_validate_flowparam`:
     pinned text, fixed rendering (see `gen_glue`)"""
@@ -1596,6 +1724,17 @@ def gen_glue_public(tree, methods, out):
     if len(vf) != 1 or [a.arg for a in vf[0].args.args] != ["param"] or [ast.unparse(st) for st in vf[0].body] != want_vf:
         raise Untranslatable("_validate_flowparam is not the expected text")
     out.append(GLUE_PUBLIC_LEAN)
+    for fname, (args, wanted) in GLUE_REQUESTS.items():
+        fn = methods.get(fname)
+        if fn is None:
+            raise Untranslatable(f"CompartmentalModel.{fname} not found")
+        if [a.arg for a in fn.args.args] != args:
+            raise Untranslatable(f"signature of {fname}: " + str([a.arg for a in fn.args.args]))
+        body = [ast.unparse(st) for st in fn.body if not (isinstance(st, ast.Expr) and isinstance(st.value, ast.Constant))]
+        if body != wanted:
+            k = next((i for i, (a, b_) in enumerate(zip(body, wanted)) if a != b_), min(len(body), len(wanted)))
+            raise Untranslatable(f"{fname}: statement {k} is not the expected text: " + (body[k][:160] if k < len(body) else "<missing>"))
+    out.append(GLUE_REQUESTS_LEAN)
 
 
 def gen_glue(tree, out, report):
